@@ -282,19 +282,17 @@ impl StringPool {
         StringRef(self.strings.len() as i32)
     }
 
-    /// Decrements the refcount of a string in the pool.
+    /// Decrements the refcount of a string in the pool.  A reference that
+    /// does not name a live entry (which only a damaged file can contain) is
+    /// ignored.
     pub fn decref(&mut self, string_ref: StringRef) {
         let index = string_ref.index();
         if index >= self.strings.len() {
-            panic!(
-                "decref: string_ref {} invalid, pool has only {} entries",
-                string_ref.number(),
-                self.strings.len()
-            );
+            return;
         }
         let (ref mut string, ref mut refcount) = self.strings[index];
         if *refcount < 1 {
-            panic!("decref: string refcount is already zero");
+            return;
         }
         self.is_modified = true;
         *refcount -= 1;
